@@ -257,6 +257,10 @@ def _norm_dpfs_log2(d):
     return d
 
 
+# gaps (bytes) in front of the IVFC descriptor, the DPFS descriptor and the master hashes inside a partition descriptor; set by the caller
+DESC_LAYOUT = {'gaps': (0, 0, 0)}
+
+
 def _build_partition(index, data, rng, block_log2, dpfs_block_log2, external_lv4, random_bitmaps, slack, lv3_tail=0):
     data = bytes(data)
     if not data:
@@ -364,13 +368,16 @@ def _build_partition(index, data, rng, block_log2, dpfs_block_log2, external_lv4
     if external_lv4:
         pad_to(_align(len(part), bs[3]) + gap(bs[3]))
         off_ext = len(part)
-        part += data.ljust(nblocks[3] * bs[3], b'\0')
+        # the last block is HASHED zero-padded; what the file holds behind the end of level 4 is nobody's business (garbage here)
+        part += data + (_garbage(rng, nblocks[3] * bs[3] - len(data)) if slack else bytes(nblocks[3] * bs[3] - len(data)))
     pad_to(len(part) + gap(16, p=0.5, most=8))
 
     # ---- descriptor -----------------------------------------------------------------------------
-    ivfc_off, ivfc_size = 0x44, 0x78
-    dpfs_off, dpfs_size = ivfc_off + ivfc_size, 0x50
-    hash_off, hash_size = dpfs_off + dpfs_size, len(master)
+    # the DIFI header says where the three parts are; consoles write them back to back, the format does not require it
+    g1, g2, g3 = DESC_LAYOUT['gaps']
+    ivfc_off, ivfc_size = 0x44 + g1, 0x78
+    dpfs_off, dpfs_size = ivfc_off + ivfc_size + g2, 0x50
+    hash_off, hash_size = dpfs_off + dpfs_size + g3, len(master)
 
     w = _Writer('p%d.difi.' % index)
     w.raw(_DIFI_MAGIC)
@@ -386,7 +393,7 @@ def _build_partition(index, data, rng, block_log2, dpfs_block_log2, external_lv4
     w.u(off_ext, 8, 'external_lv4_offset')
     assert len(w.buf) == 0x44
     fields = list(w.fields)
-    desc = bytearray(w.buf)
+    desc = bytearray(w.buf) + bytes(g1)
 
     w = _Writer('p%d.ivfc.' % index)
     w.raw(_IVFC_MAGIC)
@@ -399,7 +406,7 @@ def _build_partition(index, data, rng, block_log2, dpfs_block_log2, external_lv4
     w.u(0x78, 8, 'descriptor_size')
     assert len(w.buf) == 0x78
     fields += [(ivfc_off + o, n, d) for o, n, d in w.fields]
-    desc += w.buf
+    desc += w.buf + bytes(g2)
 
     w = _Writer('p%d.dpfs.' % index)
     w.raw(_DPFS_MAGIC)
@@ -410,7 +417,8 @@ def _build_partition(index, data, rng, block_log2, dpfs_block_log2, external_lv4
         w.raw(b'\0\0\0\0')
     assert len(w.buf) == 0x50
     fields += [(dpfs_off + o, n, d) for o, n, d in w.fields]
-    desc += w.buf
+    desc += w.buf + bytes(g3)
+    assert len(desc) == hash_off
     desc += master
 
     # ---- bookkeeping (relative to the partition start) -----------------------------------------
